@@ -133,6 +133,37 @@ def main():
                                f'rule says keep={keep}, emitted={col in out.columns}')
                     elif keep and list(out[col]) != list(arr):
                         h.fail('construct_new_features.values_are_formula_as_text', wit, 'emitted values differ from str(formula(X))')
+    # ---- one transformer object applied to a sequence of frames with the same column names and the same number of rows:
+    # the contract quantifies over every (object, frame) pair, so what it emits depends on the frame at hand only
+    for preset in ('minimal', 'default'):
+        tr = FTG({'f', 'g'}, preset)
+        n = 60
+        for step in range(3 if quick else 8):
+            fv = [float(v) for v in rng.choice([1, 2, 3, 5, 8, 13, 40, 97, 0.5], n)] if step != 1 else \
+                 [float(v) for v in rng.choice([-2, -3, -5, 0, 0, 0, 0, 0, 0, 0], n)]
+            gv = [float(v) for v in rng.choice([0.25, 4, 9, 16, 100, 1e4][step % 3:], n)]
+            frame = {'f': [repr(v) for v in fv], 'g': [repr(v) for v in gv], 'cat': ['a'] * n}
+            df = pd.DataFrame(frame)
+            for c in ('f', 'g'):
+                if list(tr.get_vals(df, c)) != [float(s) for s in frame[c]]:
+                    h.fail('FeatureTransformerGeneric.get_vals.ensures.numeric_parse',
+                           {'column': frame[c][:20], 'same_object_call_number': step + 1}, 'parse differs from the frame passed in')
+            with np.errstate(all='ignore'):
+                out = tr.construct_new_features(df.copy())
+            for c in ('f', 'g'):
+                Xc = np.array([float(s) for s in frame[c]])
+                for name, text in vault[preset].items():
+                    with np.errstate(all='ignore'):
+                        arr = np.broadcast_to(np.asarray(eval(text, {'np': np, 'X': Xc})), Xc.shape).astype(str)
+                    u, cnt = np.unique(arr, return_counts=True)
+                    keep = len(u) > 1 and cnt.max() / cnt.sum() < 0.80 and np.count_nonzero(arr == 'nan') / len(arr) < 0.75
+                    col = f'{c}{name}'
+                    h.record(('reuse', preset, step, col), True)
+                    wit = {'preset': preset, 'column': col, 'same_object_call_number': step + 1, 'values': frame[c][:60]}
+                    if keep != (col in out.columns):
+                        h.fail('construct_new_features.keep_iff_not_degenerate', wit, f'rule says keep={keep}, emitted={col in out.columns}')
+                    elif keep and list(out[col]) != list(arr):
+                        h.fail('construct_new_features.values_are_formula_as_text', wit, 'emitted values differ from str(formula(X)) of this frame')
     # ---- huge integer-looking text (epoch millis, byte counters) and long columns: values are still the formula on the float parse
     big = {'ts': [str(int(v)) for v in rng.integers(1_600_000_000_000, 1_700_000_000_000, 40)],
            'nbytes': [str(int(v)) for v in rng.integers(3_000_000_000, 9_000_000_000, 40)],
